@@ -79,7 +79,8 @@ def Machine.onTimeoutTrace (env : Env) (m : Machine) (s : Step) (h : Height) (r 
 
 def Machine.processTimeoutTrace (env : Env) (m : Machine) (s : Step) (h : Height) (r : Round) :
     List TraceElem :=
-  m.onTimeoutTrace env s h r ++ Machine.loopTrace env none loopFuel (m.onTimeout env s h r).1
+  if (m.onTimeout env s h r).2.isEmpty then []
+  else m.onTimeoutTrace env s h r ++ Machine.loopTrace env none loopFuel (m.onTimeout env s h r).1
 
 def Machine.processSyncVotesTrace (env : Env) : Machine → List Vote → List TraceElem
   | _, [] => []
